@@ -17,6 +17,12 @@ var AllSuites = []Suite{{1, 1}, {1, 2}, {1, 3}}
 // ConfigBytes encodes one ECHConfig (draft-ietf-tls-esni section 4), written
 // from the draft, independent of ech.ConfigSpec.Bytes.
 func ConfigBytes(id uint8, kem uint16, pub []byte, suites []Suite, maxNameLen uint8, publicName []byte) []byte {
+	return ConfigBytesExt(id, kem, pub, suites, maxNameLen, publicName, nil)
+}
+
+// ConfigBytesExt is ConfigBytes with an extensions block (the concatenated
+// ECHConfigExtension entries, without their outer length prefix).
+func ConfigBytesExt(id uint8, kem uint16, pub []byte, suites []Suite, maxNameLen uint8, publicName []byte, exts []byte) []byte {
 	var c []byte
 	c = append(c, id)
 	c = append(c, u16(int(kem))...)
@@ -30,7 +36,8 @@ func ConfigBytes(id uint8, kem uint16, pub []byte, suites []Suite, maxNameLen ui
 	c = append(c, maxNameLen)
 	c = append(c, byte(len(publicName)))
 	c = append(c, publicName...)
-	c = append(c, 0, 0) // extensions
+	c = append(c, u16(len(exts))...) // extensions
+	c = append(c, exts...)
 	out := []byte{0xfe, 0x0d}
 	out = append(out, u16(len(c))...)
 	return append(out, c...)
